@@ -80,6 +80,10 @@ def units(tier):
     for k in KIND_NAMES:
         us.append({"kind": "lazy", "elem": k})
     us.append({"kind": "sibling-reads-lazy"})
+    from .. import scale
+    for n in scale.sizes(tier):
+        if n <= 8193:
+            us.append({"kind": "scale", "size": n})
     for name in interleaved_shapes():
         us.append({"kind": "interleaved", "shape": name})
     return us
@@ -172,7 +176,7 @@ def inputs_for(eager, values, tier):
 
 # ------------------------------------------------------------------------------- events
 
-def struct_events(names):
+def struct_events(names, with_next=True):
     ev = []
     for i, n in enumerate(names):
         ev.append(("index", i))
@@ -181,16 +185,19 @@ def struct_events(names):
             ev.append(("attr", i))
             ev.append(("get", i))
     ev += [("keys",), ("values",), ("items",), ("iter",), ("len",), ("build",)]
+    # suspended iteration: two independent value iterators advanced one step at a time between other accesses
+    if with_next:
+        ev += [("next", 0), ("next", 1)]
     return ev
 
 
-def array_events(n):
+def array_events(n, with_next=True):
     ev = [("index", i) for i in range(n)] + [("index", -1), ("index", -n)]
     for a in (None, 0, 1, n - 1, n, n + 1):
         for b in (None, 0, 1, n, n + 1):
             for st in (None, 2, -1):
                 ev.append(("slice", a, b, st))
-    ev += [("iter",), ("len",), ("list",), ("build",)]
+    ev += [("iter",), ("len",), ("list",), ("build",)] + ([("next", 0), ("next", 1)] if with_next else [])
     seen, out = set(), []
     for e in ev:
         if e not in seen:
@@ -199,9 +206,22 @@ def array_events(n):
     return out
 
 
+_ITERS = {}
+
+
 def apply_event(lz, names, ev, outer_lazy, outer_obj):
     """perform the access on the lazy object -> normalised result"""
     k = ev[0]
+    if k == "next":
+        key = (id(lz), ev[1])
+        if key not in _ITERS:
+            _ITERS[key] = [iter(lz.values()) if names is not None else iter(lz), 0, lz]
+        it = _ITERS[key]
+        it[1] += 1
+        try:
+            return T.norm(next(it[0]))
+        except StopIteration:
+            return "STOP"
     if k == "index":
         return T.norm(lz[ev[1]])
     if k == "name":
@@ -229,9 +249,13 @@ def apply_event(lz, names, ev, outer_lazy, outer_obj):
     raise ValueError(ev)
 
 
-def eager_answer(ev, ev_names, eager_lz, eager_bytes):
+def eager_answer(ev, ev_names, eager_lz, eager_bytes, hist=()):
     k = ev[0]
     names = ev_names
+    if k == "next":
+        pos = sum(1 for h in hist if tuple(h) == tuple(ev))
+        seq = [eager_lz[n] for n in names if n is not None] if names is not None else list(eager_lz)
+        return seq[pos] if pos < len(seq) else "STOP"
     if k == "index":
         if names is not None:
             if names[ev[1]] is None:
@@ -260,7 +284,8 @@ def eager_answer(ev, ev_names, eager_lz, eager_bytes):
 def canon(lz, stream):
     vals = getattr(lz, "_values", None)
     cached = tuple(sorted(vals.keys())) if isinstance(vals, dict) else ()
-    return (cached, stream.tell())
+    its = tuple(_ITERS[(id(lz), slot)][1] if (id(lz), slot) in _ITERS else -1 for slot in (0, 1))
+    return (cached, stream.tell(), its)
 
 
 def explore(outer_lazy, outer_eager, names, data, events, depth, sig, case0, r, get_lz=lambda o: o["lz"]):
@@ -284,6 +309,7 @@ def explore(outer_lazy, outer_eager, names, data, events, depth, sig, case0, r, 
         eager_bytes = None
 
     def fresh():
+        _ITERS.clear()
         s = io.BytesIO(data + b"\xee\xee")
         with watchdog(3):
             o = outer_lazy.parse_stream(s)
@@ -333,14 +359,14 @@ def explore(outer_lazy, outer_eager, names, data, events, depth, sig, case0, r, 
                     bad("access-hang", hist + (e,), "history %r did not terminate" % (hist + (e,),))
                     continue
                 except Exception as ex:
-                    want = eager_answer(e, names, eager_lz, eager_bytes)
+                    want = eager_answer(e, names, eager_lz, eager_bytes, hist)
                     if e[0] == "build" and eager_bytes is None:
                         continue
                     if want == "anon":
                         continue
                     bad("access-raises-%s" % type(ex).__name__, hist + (e,), "history %r on %s raised %r; eager value %r" % (list(hist + (e,)), data.hex(), ex, want))
                     continue
-                want = eager_answer(e, names, eager_lz, eager_bytes)
+                want = eager_answer(e, names, eager_lz, eager_bytes, hist)
                 if r is not None:
                     r.case(nontrivial=True, outcome="access", transitions=0, validated=1)
                 if want != "anon" and not (e[0] == "build" and eager_bytes is None):
@@ -372,7 +398,8 @@ def run_unit(unit, tier):
                 ol, oe, values, names = build_pair("lazystruct", spec, host)
                 sig = "LazyStruct(%s)" % ",".join(spec)
                 for data in inputs_for(oe, values, tier):
-                    for v in explore(ol, oe, names, data, struct_events(names), len(spec) + 2, sig, {"kind": "lazystruct", "spec": spec, "host": host}, r):
+                    wn = (tier == "thorough" and len(spec) <= 2 and host == "plain") or (len(spec) <= 2 and host == "plain" and all(k in TRIPLE_ALPHABET for k in spec))
+                    for v in explore(ol, oe, names, data, struct_events(names, wn), len(spec) + 2, sig, {"kind": "lazystruct", "spec": spec, "host": host}, r):
                         r.violation(sigshort(v["sig"]), v["case"], v["detail"])
                 r.sample({"shape": sig, "host": host}, cap=2)
     elif k == "lazyarray":
@@ -382,7 +409,8 @@ def run_unit(unit, tier):
                 ol, oe, values, names = build_pair("lazyarray", spec, host)
                 sig = "LazyArray(%d,%s)" % (n, unit["elem"])
                 for data in inputs_for(oe, values, tier):
-                    for v in explore(ol, oe, None, data, array_events(n), min(n + 2, 4), sig, {"kind": "lazyarray", "spec": spec, "host": host}, r):
+                    wn = (tier == "thorough" and host == "plain") or (host == "plain" and n <= 2) or (host == "plain" and unit["elem"] in ("Byte", "Prefixed"))
+                    for v in explore(ol, oe, None, data, array_events(n, wn), min(n + 2, 4), sig, {"kind": "lazyarray", "spec": spec, "host": host}, r):
                         r.violation(sigshort(v["sig"]), v["case"], v["detail"])
                 r.sample({"shape": sig, "host": host}, cap=2)
     elif k == "lazy":
@@ -393,6 +421,8 @@ def run_unit(unit, tier):
                 for v in explore_lazy(ol, oe, data, sig, {"kind": "lazy", "elem": unit["elem"], "position": position}, r):
                     r.violation(sigshort(v["sig"]), v["case"], v["detail"])
             r.sample({"shape": sig}, cap=2)
+    elif k == "scale":
+        run_scale(unit["size"], r)
     elif k == "interleaved":
         for v in run_interleaved(unit["shape"], tier, r):
             r.violation(v["sig"], v["case"], v["detail"])
@@ -400,6 +430,68 @@ def run_unit(unit, tier):
         for v in sibling_reads_lazy(tier, r):
             r.violation(sigshort(v["sig"]), v["case"], v["detail"])
     return r
+
+
+def run_scale(n, r):
+    """many elements / long members (size axis): fixed access scripts on lazy results with n elements or n-byte members"""
+    import construct as C
+    from .. import scale
+    data = scale.payload(2 * n + 8, "ramp")
+    shapes = [
+        ("LazyArray(n, Byte)", C.Struct("h" / C.Byte, "lz" / C.LazyArray(n, C.Byte), "t" / C.Byte), C.Struct("h" / C.Byte, "lz" / C.Array(n, C.Byte), "t" / C.Byte), "array"),
+        ("LazyArray(n, Int16ub)", C.Struct("h" / C.Byte, "lz" / C.LazyArray(n, C.Int16ub), "t" / C.Byte), C.Struct("h" / C.Byte, "lz" / C.Array(n, C.Int16ub), "t" / C.Byte), "array"),
+        ("LazyStruct(Bytes(n), Byte, Bytes(n))", C.Struct("h" / C.Byte, "lz" / C.LazyStruct("a" / C.Bytes(n), "b" / C.Byte, "c" / C.Bytes(n)), "t" / C.Byte),
+         C.Struct("h" / C.Byte, "lz" / C.Struct("a" / C.Bytes(n), "b" / C.Byte, "c" / C.Bytes(n)), "t" / C.Byte), "struct"),
+        ("Lazy(Bytes(n))", C.Struct("h" / C.Byte, "lz" / C.Lazy(C.Bytes(n)), "t" / C.Byte), C.Struct("h" / C.Byte, "lz" / C.Bytes(n), "t" / C.Byte), "lazy"),
+    ]
+    for name, ol, oe, kind in shapes:
+        case = {"kind": "scale", "shape": name, "size": n}
+        try:
+            se = io.BytesIO(data); ev = oe.parse_stream(se); eend = se.tell()
+            sl = io.BytesIO(data); lv = ol.parse_stream(sl); lend = sl.tell()
+        except Exception as e:
+            r.violation("C16/scale/parse-raised/" + name.split("(")[0], case, "%s with n=%d: %r" % (name, n, e))
+            continue
+        r.states += 1
+        probs = []
+        if lend != eend or lv["t"] != ev["t"]:
+            probs.append("final position %d vs %d, following member %r vs %r" % (lend, eend, lv["t"], ev["t"]))
+        lz, eg = lv["lz"], ev["lz"]
+        if kind == "array":
+            idx = [n - 1, 0, n // 2, -1, 255 % n, 256 % n, 257 % n, 4095 % n, 4096 % n, n - 2 if n > 1 else 0]
+            for i in idx:
+                before = sl.tell()
+                if lz[i] != eg[i]:
+                    probs.append("element %d: %r vs %r" % (i, lz[i], eg[i]))
+                if sl.tell() != before:
+                    probs.append("access to element %d moved the stream" % i)
+            for a, b in ((n - 5, n), (250, 260), (0, 3), (4090, 4100)):
+                if list(lz[a:b]) != list(eg[a:b]):
+                    probs.append("slice %d:%d differs" % (a, b))
+            it = iter(lz)
+            first = [next(it) for _ in range(min(3, n))]
+            mid = lz[n // 2]
+            rest = list(it)
+            if first + rest != list(eg) or mid != eg[n // 2]:
+                probs.append("suspended iteration differs")
+            if list(lz) != list(eg) or len(lz) != n:
+                probs.append("full iteration differs")
+        elif kind == "struct":
+            for k in ("c", "a", "b"):
+                if lz[k] != eg[k]:
+                    probs.append("member %s differs" % k)
+        else:
+            if lz() != eg or lz() != eg:
+                probs.append("forced value differs")
+        try:
+            if ol.build(lv) != oe.build(ev):
+                probs.append("build from the lazy result differs")
+        except Exception as e:
+            probs.append("build from the lazy result raised %r" % (e,))
+        r.case(nontrivial=True, outcome="scale-ok" if not probs else "scale-bad", transitions=12, validated=1)
+        if probs:
+            r.violation("C16/scale/" + name.split("(")[0], case, "%s with n=%d: %s" % (name, n, "; ".join(probs[:4])))
+    r.sample({"scale_size": n, "shapes": [x[0] for x in shapes]})
 
 
 def sigshort(sig):
@@ -576,6 +668,9 @@ def run_interleaved(name, tier, r):
 
 
 def replay(case):
+    if case.get("kind") == "scale":
+        r = UnitResult(); run_scale(case["size"], r)
+        return [v for v in r.violations if v["case"] == case]
     k = case["kind"]
     if k == "interleaved":
         vs = run_interleaved(case["shape"], "quick", None)
